@@ -578,7 +578,7 @@ attrsLoop:
 						break
 					}
 					tmpAttrs = append(tmpAttrs, htmlAttr)
-				case "audio", "embed", "iframe", "img", "script", "source", "track", "video":
+				case "audio", "embed", "iframe", "img", "input", "script", "source", "track", "video":
 					if htmlAttr.Key == "src" {
 						if u, ok := p.validURL(htmlAttr.Val); ok {
 							if p.srcRewriter != nil {
@@ -991,7 +991,7 @@ func linkable(elementName string) bool {
 	case "blockquote", "del", "ins", "q":
 		// elements that allow .cite
 		return true
-	case "audio", "embed", "iframe", "img", "input", "script", "track", "video":
+	case "audio", "embed", "iframe", "img", "input", "script", "source", "track", "video":
 		// elements that allow .src
 		return true
 	default:
